@@ -1,14 +1,15 @@
 """script generator for the memory_stack harness (h_stack.cpp)"""
 
 
-def gen_script(rng, faults=False, fixed=None, nops=None):
+def gen_script(rng, faults=False, fixed=None, nops=None, shrink=True):
     bs = rng.choice([64, 100, 256, 256, 1024, 4096])
     src = 'fixed' if (fixed if fixed is not None else rng.random() < 0.2) else 'grow'
     lines = ['stack %d %s' % (bs, src)]
     nops = nops or rng.randint(15, 90)
-    nmark = 0
     depth = 0          # markers currently valid (nested)
-    recorded = []      # requests since the oldest valid marker, for replay equality
+    recorded = []      # requests since marker 0 that are still in effect, for replay equality
+    reclen = []        # len(recorded) when each valid marker was taken
+    clean = True       # no shrink_to_fit / injected failure since marker 0 was taken
     for _ in range(nops):
         r = rng.random()
         if r < 0.50:
@@ -19,25 +20,24 @@ def gen_script(rng, faults=False, fixed=None, nops=None):
             if depth:
                 recorded.append(ln)
         elif r < 0.66:
-            lines.append('top'); nmark += 1; depth += 1
+            lines.append('top'); depth += 1; reclen.append(len(recorded))
         elif r < 0.82 and depth:
             k = rng.randint(0, depth - 1)
-            lines.append('unwind %d' % k)
-            depth = k + 1
-            if k == 0 and recorded and rng.random() < 0.7:
-                # replay equality: the same requests again must give the same addresses (cache not purged)
+            if k == 0 and recorded and clean and rng.random() < 0.8:
+                # replay equality: unwind, issue again the requests that were in effect, (then unwind again)
+                lines.append('unwind 0')
                 lines.append('#replay-begin')
                 lines += recorded
                 lines.append('#replay-end')
-                lines.append('unwind 0')
-            if k == 0:
-                recorded = []
-        elif r < 0.86:
-            lines.append('shrink'); recorded = []
+            lines.append('unwind %d' % k)
+            depth = k + 1
+            recorded = recorded[:reclen[k]]; reclen = reclen[:k + 1]
+        elif r < 0.86 and shrink:
+            lines.append('shrink'); clean = False
         elif r < 0.92:
             lines.append('q')
         elif r < 0.95 and faults:
-            lines.append('fail %d' % rng.randint(1, 2))
+            lines.append('fail %d' % rng.randint(1, 2)); clean = False
         elif r < 0.97:
             lines.append('mv')
         else:
@@ -46,4 +46,4 @@ def gen_script(rng, faults=False, fixed=None, nops=None):
         lines.append('unwind 0')
     lines.append('q')
     lines.append('destroy')
-    return '\n'.join(l for l in lines) + '\n'
+    return '\n'.join(lines) + '\n'
